@@ -634,7 +634,6 @@ func vC23Concurrent(r *verifkit.Run, lane *vC23Lane, rng *rand.Rand, label strin
 		pauses []int
 	}
 	plans := make([]clientPlan, g)
-	total := 0
 	for c := 0; c < g; c++ {
 		n := 2 + rng.Intn(6)
 		if g > 4 {
@@ -644,7 +643,6 @@ func vC23Concurrent(r *verifkit.Run, lane *vC23Lane, rng *rand.Rand, label strin
 			plans[c].ops = append(plans[c].ops, vC23Plan(rng, k, v))
 			plans[c].pauses = append(plans[c].pauses, rng.Intn(6))
 		}
-		total += n
 	}
 
 	var tick atomic.Int64
@@ -869,14 +867,14 @@ func TestVerif_C23(t *testing.T) {
 
 	// ---- sequential part
 	t0 := time.Now()
-	runLanes("s", 6, r.N(1000, 8000), func(lane *vC23Lane, lrng *rand.Rand, label string) bool {
+	runLanes("s", 6, r.N(1000, 16000), func(lane *vC23Lane, lrng *rand.Rand, label string) bool {
 		return vC23Sequential(r, lane.store, lrng, label)
 	})
 	r.Note("sequential_part_wall_s", time.Since(t0).Seconds())
 
 	// ---- concurrent part
 	t0 = time.Now()
-	runLanes("c", 6, r.N(1000, 10000), func(lane *vC23Lane, lrng *rand.Rand, label string) bool {
+	runLanes("c", 6, r.N(1000, 20000), func(lane *vC23Lane, lrng *rand.Rand, label string) bool {
 		return vC23Concurrent(r, lane, lrng, label, &stats)
 	})
 	r.Note("concurrent_part_wall_s", time.Since(t0).Seconds())
